@@ -141,6 +141,9 @@ pub struct PlanEntry {
     pub m: u32,
     /// ... or this many microseconds have passed
     pub timeout_us: u64,
+    /// instead of pausing, make the call fail with this errno (0 = no fault); only honoured for
+    /// the read-side classes open-read and mmap
+    pub fail_errno: i32,
 }
 static PLAN: Mutex<Vec<PlanEntry>> = Mutex::new(Vec::new());
 static PLAN_ACTIVE: AtomicBool = AtomicBool::new(false);
@@ -156,6 +159,8 @@ static DEFAULT_ROLE: AtomicU32 = AtomicU32::new(0);
 static FIRED_PERTURB: AtomicU32 = AtomicU32::new(0);
 
 thread_local! {
+    /// a planned read-side fault was injected into a call of this thread since the last reset
+    static FAULTED: Cell<bool> = Cell::new(false);
     static QUIET: Cell<bool> = Cell::new(false);
     static ROLE: Cell<u8> = Cell::new(0);
     static PENDING_PARK: Cell<Option<(u32, u64)>> = Cell::new(None);
@@ -333,6 +338,12 @@ extern "C" fn pre_cb(ev: *const Event, act: *mut Action) {
                 };
                 if let Some(p) = hit {
                     FIRED_PERTURB.fetch_add(1, SeqCst);
+                    if p.fail_errno != 0 && (cl == Class::OpenRead || cl == Class::Mmap) {
+                        FAULTED.with(|c| c.set(true));
+                        act.action = ACT_FAIL;
+                        act.err = p.fail_errno;
+                        return;
+                    }
                     if p.split && ev.kind == EV_WRITE && ev.len >= 2 {
                         let n = ((ev.len as u128 * p.frac_pm as u128) / 1000) as u64;
                         let n = n.clamp(1, ev.len - 1);
@@ -550,6 +561,14 @@ pub fn plan_clear() -> u32 {
     PLAN_ACTIVE.store(false, SeqCst);
     PLAN.lock().unwrap().clear();
     FIRED_PERTURB.load(SeqCst)
+}
+
+/// Reset / read the calling thread's "a planned read fault hit one of my calls" flag.
+pub fn fault_flag_reset() {
+    FAULTED.with(|c| c.set(false));
+}
+pub fn fault_flag() -> bool {
+    FAULTED.with(|c| c.get())
 }
 
 pub fn set_default_role(r: u8) {
